@@ -45,7 +45,9 @@ pub fn gen_layout(ch: &mut Choices) -> Layout {
     let schema_dir = ch.pick(&["schema", ".", "src/graphql/schema", "../shared", "pkg/api/src"]).to_string();
     let ops_dir = ch.pick(&["src/ops", ".", "ops", "src/deep/er/ops", "pkg/client/src"]).to_string();
     let ext = ch.pick(&["d.ts", "ts", "d.mts", "mts", "d.cts"]).to_string();
-    let schema_output = format!("{}/schema.{ext}", ch.pick(&["generated", ".", "src/generated/types", "../out", "src/ops", "pkg/web/src", "pkg/web/src/gen"]));
+    // stems with extra dots: the module specifier is derived by replacing the TypeScript extension only
+    let stem = *ch.pick(&["schema", "schema", "schema.generated", "api.v1.schema"]);
+    let schema_output = format!("{}/{stem}.{ext}", ch.pick(&["generated", ".", "src/generated/types", "../out", "src/ops", "pkg/web/src", "pkg/web/src/gen"]));
     let resolvers_output = if ch.chance(1, 2) { Some(format!("{}/resolvers.d.ts", ch.pick(&["generated", ".", "src/server", "../out/sub", "pkg/server/src"]))) } else { None };
     let server_graphql_output = if ch.chance(1, 3) { Some(format!("{}/schema.js", ch.pick(&["generated", "src/server"]))) } else { None };
     let mode = *ch.pick(&MODES);
